@@ -63,6 +63,8 @@ class Ctx:
         self.ghost = {}
         self.symbols = {}         # name -> z3 const (for model extraction)
         self.feas_unknown = 0
+        self.byte_terms = set()
+        self.soft = set()         # ids of facts tying z3 sequence lengths to tracked lengths (droppable in proofs)
         self.byte_origin = {}     # z3 ast id of a byte item -> (term, byte index) it was cut from
         self.cover = set()
 
@@ -104,9 +106,12 @@ class Ctx:
     def couple(self, term, n):
         """tie z3's Length(term) to the tracked length for short sequences only"""
         if isinstance(n, int):
-            self.fact(z3.Length(term) == n)
+            f = z3.Length(term) == n
         else:
-            self.fact(z3.Implies(n <= self.COUPLE_MAX, z3.Length(term) == n))
+            f = z3.Implies(n <= self.COUPLE_MAX, z3.Length(term) == n)
+        f = z3.simplify(f)
+        self.soft.add(f.get_id())
+        self.fact(f)
 
     # -- path condition ---------------------------------------------------------------------------
     def assume(self, cond):
@@ -125,6 +130,14 @@ class Ctx:
     def fact(self, cond):
         """A type fact that is true by construction (element of bytes in 0..255 ...)."""
         self.assume(cond)
+
+    def byte_fact(self, e):
+        """e is an element of a bytes object: 0 <= e <= 255 by construction"""
+        if z3.is_int_value(e):
+            return
+        if e.get_id() not in self.byte_terms:
+            self.byte_terms.add(e.get_id())
+            self.fact(z3.And(e >= 0, e <= 255))
 
     def check(self, *extra):
         try:
@@ -235,7 +248,9 @@ class Ctx:
     def oblige(self, name, kind, claim, info=None):
         if isinstance(claim, bool):
             claim = z3.BoolVal(claim)
-        self.obligations.append(Obligation(name, kind, self.pc, claim, info, self.decisions, self.axioms))
+        ob = Obligation(name, kind, self.pc, claim, info, self.decisions, self.axioms)
+        ob.info['soft'] = self.soft
+        self.obligations.append(ob)
 
     def tick(self):
         self.steps += 1
